@@ -59,13 +59,13 @@ pub fn builtin_slice(
 }
 
 #[builtin]
-pub fn builtin_map(func: NativeFn!((Val) -> Val), arr: IndexableVal) -> ArrValue {
+pub fn builtin_map(func: NativeFn!((Thunk<Val>) -> Val), arr: IndexableVal) -> ArrValue {
 	let arr = arr.to_array();
 	arr.map(func)
 }
 
 #[builtin]
-pub fn builtin_map_with_index(func: NativeFn!((u32, Val) -> Val), arr: IndexableVal) -> ArrValue {
+pub fn builtin_map_with_index(func: NativeFn!((u32, Thunk<Val>) -> Val), arr: IndexableVal) -> ArrValue {
 	let arr = arr.to_array();
 	arr.map_with_index(func)
 }
@@ -135,7 +135,7 @@ pub fn builtin_filter(func: FilterFunc, arr: ArrValue) -> Result<ArrValue> {
 #[builtin]
 pub fn builtin_filter_map(
 	filter_func: FilterFunc,
-	map_func: NativeFn!((Val) -> Val),
+	map_func: NativeFn!((Thunk<Val>) -> Val),
 	arr: ArrValue,
 ) -> Result<ArrValue> {
 	Ok(arr.filter(filter_func)?.map(map_func))
